@@ -1,6 +1,6 @@
 (** Statements of the C05 theorems spelled out again, so that a theorem cannot be silently
     weakened: this file stops compiling if a statement in Props/C05.v changes. *)
-From BV Require Import Base.Common Model.Book Proofs.Book Props.C05.
+From BV Require Import Base.Common Model.Book Proofs.Book Corr.C05 Props.C05.
 
 Check C05_refines_map : forall evs b,
   forallb wf_event evs = true -> book_inv b ->
@@ -31,6 +31,7 @@ Check C05_snapshot_depth : forall b d,
              if Nat.ltb (rank Ask (asks b) p) d then lookup (asks b) p else None).
 Check C05_sequence_is_last : forall evs e b,
   bseq (fold_left update (evs ++ [e]) b) = event_seq e.
+Check C05_oracle_sound : forall c, wf_case c = true -> corr_b c = true -> prop_b c = true.
 (* the definitions the statements rest on, pinned by evaluation *)
 Check eq_refl : upsert_single Bid [(5, 1); (3, 1)]%Z (4, 2)%Z = [(5, 1); (4, 2); (3, 1)]%Z.
 Check eq_refl : upsert_single Ask [(3, 1); (5, 1)]%Z (5, 0)%Z = [(3, 1)]%Z.
